@@ -298,11 +298,14 @@ def judge(p, rust_line, spec_line):
     return problems[:4]
 
 
-def body(ctx, kinds=("a1t0s0", "a1t1s0", "a1t0s1", "a1t1s1"), n=None, **kw):
-    n = n or (70 if ctx.quick() else 700)
+def body(ctx, kinds=("a1t0s0", "a1t1s0", "a1t0s1", "a1t1s1"), n=None, profiles=None, **kw):
+    n = (70 if ctx.quick() else 700) if n is None else n
     params = dict(max_depth=3, max_branches=3, fail_rate=(1, 6), handler_rate=(1, 3), block_rate=(1, 5), name_rate=(1, 4))
     params.update(kw)
     progs = [gen_async(ctx.rng, "p%d" % i, ctx.rng.pick(list(kinds)), **params) for i in range(n)]
+    for prof in (profiles or []):
+        for kind in kinds:
+            progs.append(gen_async(ctx.rng, "p%d" % len(progs), kind, profile=prof, **params))
     for i, p in enumerate(progs):
         p.base = 1000 * (i + 1)
     # reference: the sync counterpart's semantics on the same structure
@@ -324,6 +327,14 @@ def body(ctx, kinds=("a1t0s0", "a1t1s0", "a1t0s1", "a1t1s1"), n=None, **kw):
     ok, out, log = k2.build_and_run("k2async", src, with_async=True)
     if not ok:
         ctx.broken.append(("K2-async programs do not compile against the current macros", log[-3000:]))
+        pid, excerpt = k2.blame_compile_error(src, log)
+        culprit = next((p for p in progs if p.pid == pid), None)
+        if culprit is not None:
+            ctx.out.violation({"macro": culprit.name, "macro_kind": culprit.kind, "source": culprit.macro_input(),
+                               "program": "%s! { %s }" % (culprit.name, culprit.macro_input()), "compiler": excerpt,
+                               "what": "a program that is well-typed under the reference semantics no longer compiles against the "
+                                       "current macros (every program of this family compiles on a tree where the property holds)"},
+                              found_input=True, signature=None)
         return
     got = {}
     for l in out.splitlines():
@@ -343,4 +354,51 @@ def body(ctx, kinds=("a1t0s0", "a1t1s0", "a1t0s1", "a1t1s1"), n=None, **kw):
                               found_input=True, signature=None)
     ctx.out.coverage["samples"].append({"program": "%s! { %s }" % (progs[0].name, progs[0].macro_input()),
                                         "schedule": progs[0].schedule, "observed": got.get(progs[0].pid, "")[:300]})
+    ctx.out.coverage["traces_validated_against_impl"] = ctx.out.coverage.get("traces_validated_against_impl", 0) + len(progs)
+
+
+def body_panics(ctx, kinds=("a1t0s0", "a1t1s0", "a1t0s1", "a1t1s1"), n=None):
+    """C18 for the async variants: exactly one user callback panics (no failing branch, so nothing can win a race against
+    it): the macro's future must panic when driven - it may not complete normally, hang, or be left pending forever."""
+    n = (24 if ctx.quick() else 240) if n is None else n
+    rng = ctx.rng
+    progs = []
+    for i in range(n):
+        kind = kinds[i % len(kinds)]
+        p = gen_async(rng, "x%d" % i, kind, max_depth=3, max_branches=3, fail_rate=(0, 1), handler_rate=(1, 3), block_rate=(0, 1),
+                      name_rate=(1, 4), panic_rate=(0, 1))
+        p.base = 1000 * (i + 1)
+        sites = [op for br in p.branches for op in br["ops"] if op.cb and op.mode in ("init", "map", "andThen", "then", "orElse", "mapErr")]
+        # or_else / map_err callbacks never run when nothing fails: pick among the ones that do run
+        sites = [op for op in sites if op.mode not in ("orElse", "mapErr")]
+        victim = rng.pick(sites)
+        victim.out = ("panic", victim.cb)
+        p.victim = victim.cb
+        progs.append(p)
+    cases = [(p.pid, p.kind, p.macro_input(), "k2async-panic") for p in progs]
+    reals = k1.run_real(cases)
+    nk, diffs = k1.compare_gen(reals)
+    ctx.k1_compared += nk
+    if diffs:
+        ctx.k1_diffs += diffs
+        ctx.broken.append(("K1 generator correspondence (K2-async panic programs)", [d.to_json() for d in diffs[:3]]))
+    src = (k2.PRELUDE_SYNC + PRELUDE_ASYNC + "".join(p.rust_fn() for p in progs) +
+           MAIN_ASYNC % ", ".join('("%s", %s as fn() -> String)' % (p.pid, p.pid) for p in progs))
+    ok, out, log = k2.build_and_run("k2asyncpanic", src, with_async=True)
+    if not ok:
+        ctx.broken.append(("K2-async panic programs do not compile against the current macros", log[-3000:]))
+        return
+    got = dict(l.split("\t", 1) for l in out.splitlines() if "\t" in l)
+    ctx.evals += len(progs)
+    for p in progs:
+        rl = got.get(p.pid, "MISSING\t")
+        res = rl.split("\t")[0]
+        ctx.dist["k2async-panic:" + p.name] += 1
+        okp = res.startswith("panic") and (p.is_spawn() or ("user%d" % (p.victim + p.base)) in res or "user" in res)
+        if not okp:
+            ctx.out.violation({"macro": p.name, "macro_kind": p.kind, "source": p.macro_input(),
+                               "program": "%s! { %s }" % (p.name, p.macro_input()), "gate_schedule": p.schedule,
+                               "panicking_callback": p.victim, "observed": rl[:1200],
+                               "what": "a user callback panicked but the macro's future did not panic when driven "
+                                       "(completed, hung, or stayed pending)"}, found_input=True, signature=None)
     ctx.out.coverage["traces_validated_against_impl"] = ctx.out.coverage.get("traces_validated_against_impl", 0) + len(progs)
